@@ -111,6 +111,8 @@ class Fn(object):
         a = node.args
         self.static = any(isinstance(d, ast.Name) and d.id in ('staticmethod',) for d in node.decorator_list)
         self.params = [x.arg for x in a.posonlyargs + a.args + a.kwonlyargs]
+        self.npos = len(a.posonlyargs) + len(a.args)        # params[:npos] can be given positionally,
+        self.posonly = [x.arg for x in a.posonlyargs]       # params[npos:] only by keyword
         nd = len(a.defaults)
         pos = a.posonlyargs + a.args
         self.defaults = {}
@@ -173,6 +175,8 @@ class World(object):
         self.fieldtypes = {}    # (class|'?', field) -> typeset
         self.fields = {}        # field name -> index
         self.inheritance = False
+        self.global_values = {}  # (module, name) -> ast of the module-level value (for tuples of types)
+        self.namedtuples = {}    # class name -> field names
         self.class_attrs = {}   # (class, name) -> ('scalar',) | ('object', gid, typeset): class-level data
         self.assumptions = set()
         self.giveups = []
@@ -220,7 +224,15 @@ class World(object):
         for mod, tree in self.modules.items():
             for n in tree.body:
                 if isinstance(n, ast.Assign) and len(n.targets) == 1 and isinstance(n.targets[0], ast.Name):
+                    nt = namedtuple_fields(n.value)
+                    if nt is not None:
+                        # X = namedtuple('X', fields): a class whose instances hold the constructor's arguments
+                        self.classes[n.targets[0].id] = {}
+                        self.class_module[n.targets[0].id] = mod
+                        self.namedtuples[n.targets[0].id] = nt
+                        continue
                     self.mod_globals[mod][n.targets[0].id] = ('pending', n.value)
+                    self.global_values[(mod, n.targets[0].id)] = n.value
         for (cn, an), (k, val, mod) in list(self.class_attrs.items()):
             tcl = self.literal_type(val, mod) if val is not None else TS
             if tcl == TS:
@@ -322,6 +334,21 @@ class World(object):
         return [c for c in sorted(self.classes) if meth in self.classes[c]]
 
 
+def namedtuple_fields(v):
+    """field names if v is `namedtuple('X', [...])` / `collections.namedtuple(...)` with literal fields, else None"""
+    if not (isinstance(v, ast.Call) and ((isinstance(v.func, ast.Name) and v.func.id == 'namedtuple') or
+                                         (isinstance(v.func, ast.Attribute) and v.func.attr == 'namedtuple'))):
+        return None
+    if len(v.args) < 2:
+        return None
+    f = v.args[1]
+    if isinstance(f, (ast.List, ast.Tuple)) and all(isinstance(x, ast.Constant) and isinstance(x.value, str) for x in f.elts):
+        return [x.value for x in f.elts]
+    if isinstance(f, ast.Constant) and isinstance(f.value, str):
+        return f.value.replace(',', ' ').split()
+    return None
+
+
 def nest_of(ts):
     """Type of a container display whose elements have types ts."""
     if all(t and all(x == S or (isinstance(x, tuple) and x[0] == 'N') for x in t) for t in ts):
@@ -341,6 +368,9 @@ def is_scalar(t):
     return t == TS
 
 
+NT_ELEM = {}      # namedtuple class -> union of the types of its fields (kept up to date by the typer)
+
+
 def elem_type(t):
     """Type of an element of a value of type t (subscript / iteration)."""
     out = set()
@@ -352,6 +382,8 @@ def elem_type(t):
         elif isinstance(x, tuple) and x[0] == 'T':
             for e in x[1]:
                 out |= set(e or TU)
+        elif isinstance(x, tuple) and x[0] == 'C' and x[1] in NT_ELEM:
+            out |= set(NT_ELEM[x[1]])   # an element of a namedtuple instance: one of its fields
         elif isinstance(x, tuple) and x[0] == 'IT':
             out.add(T(list(x[1])))      # an element of zip(...) / enumerate(...) is a tuple of elements
         elif x == LST:
@@ -391,6 +423,12 @@ def doc_type(text, world):
 
 
 # =============================================================================== typing
+class _ModuleScope(object):
+    """stand-in for `Typer.fn` while a module-level expression is looked at"""
+    def __init__(self, module):
+        self.module, self.locals, self.nested, self.parent, self.vararg, self.kwarg = module, {}, {}, None, None, None
+
+
 class Typer(object):
     """Coarse, flow-insensitive type sets; used only to prune dynamic dispatch and to recognise
     scalar-valued expressions.  Parameter types come from the docstrings' ':type' lines."""
@@ -579,14 +617,49 @@ class Typer(object):
             pr = set(x for x in tr if not (isinstance(x, tuple) and x[0] == 'C'))
             pl.discard(OBJ)
             pr.discard(OBJ)
-            if UNK in pl or UNK in pr or LST in pl or LST in pr:
-                out |= {S, LST}
-            else:
-                out |= set(x for x in pl | pr if x == S or (isinstance(x, tuple) and x[0] in ('N', 'T')))
-                out.add(S)
+            seq_l = any(x != S for x in pl)         # may the operand be a builtin sequence?
+            seq_r = any(x != S for x in pr)
+            # builtin sequences only support `+` (both operands sequences) and `*` (one of them); every other
+            # operator on plain operands yields a scalar or raises
+            seq_result = (seq_l and seq_r) if op == 'add' else ((seq_l or seq_r) if op == 'mul' else False)
+            out.add(S)
+            if seq_result:
+                if UNK in pl or UNK in pr or LST in pl or LST in pr:
+                    out.add(LST)
+                else:
+                    out |= set(x for x in pl | pr if isinstance(x, tuple) and x[0] in ('N', 'T'))
         return frozenset(out)
 
     # -- expressions
+    def type_names(self, e, depth=0):
+        """the class expressions of an isinstance() second argument; a module-level tuple of types
+        (`_NUMBER = (int, float)`, possibly imported or nested) is looked through"""
+        if isinstance(e, ast.Tuple):
+            out = []
+            for x in e.elts:
+                out += self.type_names(x, depth)
+            return out
+        if isinstance(e, ast.Name) and depth < 4 and e.id not in self.fn.locals:
+            mod = self.fn.module
+            name = e.id
+            for _ in range(4):
+                if (mod, name) in self.w.global_values:
+                    v = self.w.global_values[(mod, name)]
+                    if isinstance(v, ast.Tuple):
+                        save = self.fn
+                        try:
+                            self.fn = _ModuleScope(mod)
+                            return self.type_names(v, depth + 1)
+                        finally:
+                            self.fn = save
+                    break
+                imp = self.w.imports.get(mod, {}).get(name)
+                if imp and imp[0] == 'from' and imp[1].startswith('pymeeus') and imp[1].split('.')[-1] in self.w.modules:
+                    mod, name = imp[1].split('.')[-1], imp[2]
+                    continue
+                break
+        return [e]
+
     def narrowed(self, test):
         """{expr key: type} implied by an isinstance test (conjunctions only)."""
         out = {}
@@ -595,7 +668,7 @@ class Typer(object):
                 out.update(self.narrowed(v))
         elif isinstance(test, ast.Call) and isinstance(test.func, ast.Name) and test.func.id == 'isinstance' \
                 and len(test.args) == 2:
-            names = test.args[1].elts if isinstance(test.args[1], ast.Tuple) else [test.args[1]]
+            names = self.type_names(test.args[1])
             ts = set()
             for n in names:
                 if isinstance(n, ast.Name) and n.id in ('int', 'float', 'str', 'bool', 'complex'):
@@ -734,6 +807,10 @@ class Typer(object):
             return nest_of([self.ty(e.elt)])
         if isinstance(e, ast.Lambda):
             return fs(FUN)
+        if isinstance(e, ast.NamedExpr):
+            tv = self.ty(e.value)
+            self.bind_target(e.target, tv)      # (name := value): an assignment whose value is the value
+            return tv
         if isinstance(e, ast.Call):
             return self.call_type(e)
         if isinstance(e, ast.Starred):
@@ -925,6 +1002,27 @@ class Typer(object):
             init = w.classes[r[1]].get('__init__')
             if init:
                 self.flow_args(init, call, 1)
+            if r[1] in w.namedtuples:
+                flds = w.namedtuples[r[1]]
+                i = 0
+                for a in call.args:
+                    if isinstance(a, ast.Starred):
+                        te = elem_type(self.ty(a.value))
+                        for fl in flds[i:]:
+                            self.grow_field(r[1], fl, te)
+                        i = len(flds)
+                    else:
+                        if i < len(flds):
+                            self.grow_field(r[1], flds[i], self.ty(a))
+                        i += 1
+                for k in call.keywords:
+                    if k.arg in flds:
+                        self.grow_field(r[1], k.arg, self.ty(k.value))
+                    elif k.arg is None:
+                        for fl in flds:
+                            self.grow_field(r[1], fl, TU)
+                NT_ELEM[r[1]] = frozenset().union(*[w.fieldtypes.get((r[1], fl), frozenset()) for fl in flds]) \
+                    if flds else frozenset()
             return fs(C(r[1]))
         if kind == 'math':
             return TS
@@ -1011,10 +1109,10 @@ class Typer(object):
         if not g.infer and not (g.private or g.parent is not None):
             return
         cur = self.fn
-        params = g.params[skip:] if (g.is_method and skip) or (skip and g.name == '__init__') else g.params
+        params = g.params[skip:g.npos] if (g.is_method and skip) or (skip and g.name == '__init__') else g.params[:g.npos]
         if g.is_method and not skip and isinstance(call.func, ast.Attribute) and isinstance(call.func.value, ast.Name) \
                 and self.name_kind(call.func.value.id) and self.name_kind(call.func.value.id)[0] == 'class':
-            params = g.params            # Class.method(obj, ...) form
+            params = g.params[:g.npos]   # Class.method(obj, ...) form
         i = 0
         for a in call.args:
             if isinstance(a, ast.Starred):
@@ -1253,7 +1351,7 @@ class Tr(object):
         star: None | ('spread', [vars]) | ('iter', var) for a *actual; dstar: var of a **mapping actual;
         recv: receiver var."""
         params = list(g.params)
-        slots = params + ['*%d' % i for i in range(g.nva)]
+        slots = params[:g.npos] + ['*%d' % i for i in range(g.nva)]      # keyword-only parameters take no positional
         vals = {}
         actual = ([recv] if recv is not None else []) + list(pos)
         if star is not None and star[0] == 'spread':
@@ -1559,6 +1657,10 @@ class Tr(object):
             return self.call(e)
         if isinstance(e, ast.Starred):
             return self.expr(e.value)
+        if isinstance(e, ast.NamedExpr):
+            v = self.expr(e.value)
+            self.assign_to(e.target, v, self.ty(e.value))
+            return v
         if isinstance(e, ast.Lambda):
             raise Havoc('lambda')
         raise Havoc('expression %s' % type(e).__name__)
@@ -1569,6 +1671,21 @@ class Tr(object):
 
     def va_vars(self):
         return [self.vars['*%d' % i] for i in range(self.fn.nva)]
+
+    def subsequence_of_vararg(self, e):
+        """e evaluates to *args itself or to a slice of it (also through conditional expressions)"""
+        if self.is_vararg(e):
+            return True
+        if isinstance(e, ast.Subscript) and isinstance(e.slice, ast.Slice) and self.subsequence_of_vararg(e.value):
+            for x in (e.slice.lower, e.slice.upper, e.slice.step):
+                self.as_index(x)
+            return True
+        if isinstance(e, ast.IfExp):
+            a, b = self.subsequence_of_vararg(e.body), self.subsequence_of_vararg(e.orelse)
+            if a and b:
+                self.truth(self.expr(e.test), self.ty(e.test))
+                return True
+        return False
 
     def va_choice(self):
         """some element of *args"""
@@ -1760,10 +1877,31 @@ class Tr(object):
             obj = self.newtmp('n')
             self.emit('new', obj)
             init = w.classes[r[1]].get('__init__')
-            if init:
+            if init and star is None and dstar is None and init not in self.inline_stack and self.plain_initialiser(init):
+                self.inline(init, call, recv=obj, args=(pos, kw, None, None))
+            elif init:
                 args = self.bind_args(init, pos, kw, star, dstar, recv=obj)
                 dummy = self.newtmp('u')
                 self.call_fn(dummy, init, args)
+            elif r[1] in w.namedtuples:
+                # the instance holds the constructor's arguments in its fields (and as its elements)
+                flds = w.namedtuples[r[1]]
+                for i, a in enumerate(pos):
+                    if a is not None:
+                        self.emit('store', obj, ('f', self.field(flds[i])) if i < len(flds) else 'e', a)
+                for k, a in kw.items():
+                    if a is not None:
+                        self.emit('store', obj, ('f', self.field(k)) if k in flds else 'e', a)
+                for extra in ([star[1]] if star is not None and star[0] == 'iter' else
+                              (list(star[1]) if star is not None else [])) + ([dstar] if dstar is not None else []):
+                    if star is not None and star[0] == 'spread' and extra in star[1]:
+                        self.emit('store', obj, 'e', extra)
+                    else:
+                        el = self.newtmp('e')
+                        self.emit('load', el, extra, 'e')
+                        self.emit('store', obj, 'e', el)
+            elif pos or kw or star is not None or dstar is not None:
+                raise Havoc('constructor arguments for a class without __init__')
             return obj
         if kind in ('fns', 'classcall'):
             pos, kw, star, dstar = self.call_args(call)
@@ -1829,9 +1967,13 @@ class Tr(object):
                         self.emit('scalar', res)
                     self.emit('store', vb, 'e', self.v(a0) if m == 'setdefault' and len(pos) > 1 else self.S)
                 alts.append(self.block(mk))
-            elif m in ('copy', 'keys', 'values', 'items'):
+            elif m in ('copy', 'keys', 'values', 'items', '_asdict', '_replace'):
                 def mk():
                     c = self.copy_container(vb, tb)
+                    if m == '_replace':
+                        for a in list(kw.values()):
+                            if a is not None:
+                                self.emit('store', c, 'e', a)
                     self.emit('alias', res, c)
                 alts.append(self.block(mk))
             elif m == 'get':
@@ -1858,18 +2000,45 @@ class Tr(object):
         self.choice(alts)
         return None if is_scalar(tres) else res
 
-    def inline(self, g, call):
-        """Inline a private return-free helper method called as self.helper(...)."""
-        pos, kw, star, dstar = self.call_args(call)
+    @staticmethod
+    def plain_initialiser(g):
+        """`__init__` of a private helper class that only assigns its parameters / constants to attributes of self
+        (record classes, __slots__ holders): inlined at the construction site, so that what the new object holds is
+        known there"""
+        if g.name != '__init__' or not (g.cls or '').startswith('_') or g.vararg or g.kwarg or not g.params:
+            return False
+        body = [s for s in g.node.body if not (isinstance(s, ast.Expr) and isinstance(s.value, ast.Constant))]
+        me = g.params[0]
+
+        def simple(e):
+            return isinstance(e, (ast.Name, ast.Constant)) or \
+                (isinstance(e, (ast.Tuple, ast.List)) and all(simple(x) for x in e.elts))
+
+        def selfattr(tg):
+            if isinstance(tg, (ast.Tuple, ast.List)):
+                return all(selfattr(x) for x in tg.elts)
+            return isinstance(tg, ast.Attribute) and isinstance(tg.value, ast.Name) and tg.value.id == me
+        for s in body:
+            if isinstance(s, ast.Assign) and all(selfattr(tg) for tg in s.targets) and simple(s.value):
+                continue
+            if isinstance(s, ast.AnnAssign) and selfattr(s.target) and (s.value is None or simple(s.value)):
+                continue
+            return False
+        return all(isinstance(d, ast.Constant) for d in g.defaults.values())
+
+    def inline(self, g, call, recv=None, args=None):
+        """Inline a private return-free helper method called as self.helper(...), or (recv = the variable holding
+        the new object, args = the already evaluated arguments) a plain initialiser at a construction site."""
+        pos, kw, star, dstar = args if args is not None else self.call_args(call)
         if star is not None or dstar is not None:
             raise Havoc('inlining with * arguments')
         ren = {}
         k = len(self.inline_stack)
         for nm in list(g.locals):
             ren[nm] = '%s@%s%d' % (nm, g.name, k)
-        selfvar = self.var(self.cur().params[0])
+        selfvar = recv if recv is not None else self.var(self.cur().params[0])
         ren[g.params[0]] = self.names[selfvar]
-        actual = dict(zip(g.params[1:], pos))
+        actual = dict(zip(g.params[1:g.npos], pos))
         actual.update(kw)
         self.inline_stack.append(g)
         self.scope.append((ren, g))
@@ -2214,10 +2383,19 @@ class Tr(object):
                     self.assign_to(tg, vx, tx)
                 return
             if len(st.targets) == 1 and self.is_vararg(st.targets[0]):
-                if isinstance(st.value, ast.Subscript) and self.is_vararg(st.value.value) \
-                        and isinstance(st.value.slice, ast.Slice):
-                    return          # args = args[a:b]: the new *args is a sub-sequence of the old one
+                if self.subsequence_of_vararg(st.value):
+                    return          # args = args[a:b] (possibly under a condition): a sub-sequence of the old *args
                 raise Havoc('assignment to *args')
+            if len(st.targets) == 1 and isinstance(st.targets[0], (ast.Tuple, ast.List)) and self.is_vararg(st.value) \
+                    and not any(isinstance(x, ast.Starred) for x in st.targets[0].elts):
+                # a, b = args: the i-th target is the i-th positional argument
+                te = self.fn.vararg_elem or TU
+                for i, tg in enumerate(st.targets[0].elts):
+                    if i < self.fn.nva and not is_scalar(te):
+                        self.assign_to(tg, self.vars['*%d' % i], te)
+                    else:
+                        self.assign_to(tg, None, TS)
+                return
             v = self.expr(st.value)
             tv = self.ty(st.value)
             for tg in st.targets:
@@ -2622,7 +2800,7 @@ def compute_nva(world, typer):
                         npos += f.nva
                 for g in gs:
                     if g.vararg:
-                        g.nva = min(12, max(g.nva, npos - len(g.params)))
+                        g.nva = min(12, max(g.nva, npos - g.npos))
 
 
 def build():
@@ -2760,8 +2938,11 @@ end Pymeeus.Effects.Current
 """
 
 
-SELFTEST_SOURCE = '''
+SELFTEST_SOURCE = '''from __future__ import annotations
+
 import math
+from collections import namedtuple
+from typing import Any
 TABLE = [1, 2, 3]
 COUNT = 0
 
@@ -3048,6 +3229,251 @@ def bad_iadd_caller(x):
     keep = z
     z += 1.0
     return keep
+
+
+# ---- modern syntax: walrus, namedtuples, slots helpers, slices, kwargs.get, f-strings, annotations, dict dispatch,
+# ---- generators consumed by all/any/sum/tuple/list, positional-only / keyword-only markers, tuples of types
+_NUMBERS = (int, float)
+Pair = namedtuple("Pair", ["first", "second"])
+Span = namedtuple("Span", "lo hi")
+LISTS = {"a": [1.0, 2.0], "b": [3.0]}
+CONSTS = {"a": 1.0, "b": 2.0}
+
+
+class _Box(object):
+    __slots__ = ("items", "n")
+
+    def __init__(self, items, n, /):
+        self.items = items
+        self.n = n
+
+
+def ok_walrus(x):
+    if (n := len(ROWS)) > 1:
+        total = n * x
+    else:
+        total = 0.0
+    while (k := total - 1.0) > 0.0:
+        total = k
+    return total
+
+
+def ok_namedtuple(x, seq):
+    p = Pair(x, 2.0 * x)
+    s = Span(lo=min(seq), hi=max(seq))
+    first, second = p
+    q = p._replace(second=0.0)
+    return p.first + second + s.hi - s.lo + q[1] + first
+
+
+def ok_slices(x, *args):
+    head = args[:2]
+    evens = args[0::2]
+    tail = ROWS[1:]
+    tail.append([x])
+    total = 0.0
+    for a, b in zip(args[0::2], args[1::2]):
+        total += a * b
+    y, m, d = args[:3]
+    return total, head, evens, len(tail), y + m + d
+
+
+def ok_vararg_unpack(*args):
+    a, b = args
+    args = args[:-1] if len(args) % 2 else args
+    return a + b + len(args)
+
+
+def ok_kwargs_get(x, **kwargs):
+    utc = kwargs.get("utc", False)
+    leap = kwargs.get("leap_seconds", 0.0)
+    return x + leap if utc else x
+
+
+def ok_fstring(x):
+    label = f"value {x:.3f} of {len(ROWS)}"
+    other = "{} and {}".format(x, label)
+    return label + other
+
+
+def ok_annotations(x: float, seq: list[float] | None = None) -> tuple[float, int]:
+    total: float = 0.0
+    count: int
+    count = 0
+    for v in (seq or []):
+        total += v
+        count += 1
+    return total + x, count
+
+
+def ok_dict_dispatch(x, key):
+    scale = CONSTS[key]
+    factor = {"a": 1.0, "b": 60.0}.get(key, 3600.0)
+    row = LISTS[key]
+    return x * scale * factor + row[0]
+
+
+def ok_generators(x, seq):
+    if not all(isinstance(v, _NUMBERS) for v in seq):
+        raise TypeError("numbers expected")
+    if any(v < 0 for v in seq):
+        return -1.0
+    total = sum(v * x for v in seq)
+    t = tuple(v + 1 for v in seq)
+    r = list(v for v in reversed(range(3)))
+    m = [v for v in seq if v > 0]
+    return total, t, r, m
+
+
+def _helper_kwonly(a, b, /, *, scale=1.0, shift=0.0):
+    return (a + b) * scale + shift
+
+
+def ok_markers(x):
+    return _helper_kwonly(x, 2.0, scale=3.0) + _helper_kwonly(1.0, x, shift=x)
+
+
+def ok_slots_helper(x, seq):
+    box = _Box([1.0, 2.0], 2)
+    box.items.append(3.0)
+    held = _Box(seq, len(seq))
+    return box.n + len(box.items) + held.n + held.items[0]
+
+
+def ok_type_tuple(x):
+    if isinstance(x, _NUMBERS):
+        return x + 1.0
+    return 0.0
+
+
+def ok_early_chain(x):
+    if not 0.0 <= x < 360.0:
+        return None
+    sign = -1.0 if x < 180.0 else 1.0
+    return sign * x
+
+
+def walrus_table_append(x):
+    if (t := TABLE) is not None:
+        t.append(x)
+
+
+def walrus_row_write(x):
+    while (row := ROWS[0]) and x > 0:
+        row[0] = x
+        x -= 1.0
+
+
+def slice_row_mutated(x):
+    part = ROWS[:1]
+    part[0].append(x)
+
+
+def slice_args_mutated(x, *args):
+    head = args[:2]
+    head[0].append(x)
+
+
+def vararg_unpack_mutated(*args):
+    a, b = args
+    a.append(1.0)
+
+
+def namedtuple_holds_param_list(x, seq):
+    p = Pair(seq, x)
+    p.first.append(x)
+
+
+def namedtuple_unpacked_param_list(x, seq):
+    p = Pair(x, seq)
+    _, s = p
+    s.append(x)
+
+
+def namedtuple_index_param_list(x, seq):
+    p = Pair(x, seq)
+    p[1].append(x)
+
+
+def namedtuple_replace_keeps_list(x, seq):
+    p = Pair(x, seq)
+    q = p._replace(first=0.0)
+    q.second.append(x)
+
+
+def namedtuple_keyword_param_list(x, seq):
+    s = Span(lo=seq, hi=x)
+    s.lo.append(x)
+
+
+def kwargs_get_mutated(x, **kwargs):
+    acc = kwargs.get("acc", None)
+    acc.append(x)
+
+
+def kwargs_get_default_global(x, **kwargs):
+    acc = kwargs.get("acc", TABLE)
+    acc.append(x)
+
+
+def dict_dispatch_list_mutated(x, key):
+    LISTS[key].append(x)
+
+
+def dict_dispatch_get_mutated(x, key):
+    row = LISTS.get(key)
+    row[0] = x
+
+
+def local_dict_of_tables_mutated(x, key):
+    d = {"rows": ROWS, "names": NAMES}
+    d[key].append(x)
+
+
+def generator_mutates(x):
+    return all(row.append(x) is None for row in ROWS)
+
+
+def sum_generator_mutates(x):
+    return sum(TABLE.pop() for _ in range(2))
+
+
+def listcomp_mutates(x):
+    return [row.pop() for row in ROWS]
+
+
+def kwonly_mutated(x, *, acc):
+    acc.append(x)
+
+
+def caller_kwonly_global(x):
+    kwonly_mutated(x, acc=TABLE)
+
+
+def posonly_mutated(acc, x, /):
+    acc.append(x)
+
+
+class Keeper(object):
+    def __init__(self):
+        self._box = None
+
+    def view(self, x):
+        self._box = _Box([x], 1)
+        return self._box.n
+
+
+def slots_helper_holds_param(x, seq):
+    box = _Box(seq, len(seq))
+    box.items.append(x)
+
+
+def fstring_mutates(x):
+    return f"{TABLE.pop()}"
+
+
+def annotated_mutates(x: float, seq: list) -> None:
+    seq.append(x)
 '''
 
 
@@ -3069,7 +3495,7 @@ def selftest():
             del DOCUMENTED_MUTATORS[-2:]
         out = []
         for f in live:
-            expected_ok = f.name.startswith('ok_') or f.name in ('__init__', 'pair_of', 'bad_iadd_caller') or \
+            expected_ok = f.name.startswith('ok_') or f.name in ('__init__', 'pair_of', 'bad_iadd_caller', '_helper_kwonly') or \
                 (f.cls in ('V', 'W') and True)
             got_ok = f.qual not in rejected
             out.append((f.qual, expected_ok, got_ok))
@@ -3106,6 +3532,10 @@ def write_report(world, live, rejected):
         else:       # a private helper that exists only inlined into its callers
             kind = 'helper'
             accepted = all(g.qual not in rejected for g in inliners.get(f, []))
+            if not accepted:
+                bad = [g.qual for g in inliners.get(f, []) if g.qual in rejected]
+                rejected = dict(rejected)
+                rejected[f.qual] = 'exists only inlined into %s, which is rejected (%s)' % (bad[0], rejected[bad[0]])
         funs.append({'name': spec_name(f), 'qual': f.qual, 'kind': kind, 'accepted': accepted,
                      'reason': rejected.get(f.qual), 'inlined_only': f not in live_set,
                      'callees': sorted(spec_name(g) for g in callees)})
@@ -3201,6 +3631,32 @@ def main_():
                 print(q, 'kind', f.kind, 'summary', sums[f.id], 'notes', f.notes)
                 print(' vars:', ' '.join('%d=%s' % (i, n) for i, n in enumerate(f.varnames)))
                 dump_body(f.body, 1)
+    if '--why' in sys.argv:
+        # which statement of a function the analysis refuses, with the abstract values involved
+        q = sys.argv[sys.argv.index('--why') + 1]
+        orig = aexec1
+
+        def traced(sums_, me, st, s):
+            try:
+                return orig(sums_, me, st, s)
+            except Reject as r:
+                if st[0] in ('store', 'call', 'ret'):
+                    vs = st[3] if st[0] == 'call' else [x for x in (st[1], st[3] if st[0] == 'store' else None) if x is not None]
+                    print('REFUSED', st[0], st[2].qual if st[0] == 'call' else st[1:], r.kind, r.data,
+                          [(traced.names[v] if v < len(traced.names) else v, l_get(s[0], v)) for v in vs], 'exposed' if s[3] else '')
+                raise
+        globals()['aexec1'] = traced
+        for f in live:
+            if f.qual == q:
+                traced.names = f.varnames
+                print(q, 'summary', sums[f.id])
+                try:
+                    aexec(sums, sums[f.id], f.body, ([('param', i) for i in range(f.nparams)] + ['scal'] * (f.nvars - f.nparams),
+                                                     ['any'] * nfields, False, False))
+                    print('accepted')
+                except Reject as r:
+                    print('rejected:', r.kind, r.data)
+        globals()['aexec1'] = orig
     if '--report' in sys.argv:
         pub = [f for f in live if f.kind != 'helper']
         print('functions: %d (%d public: %d pure, %d mutators; %d helpers)' % (
